@@ -134,6 +134,13 @@ Theorem c10_registry_driver_runs_registry :
 Proof. exact registry_generators_families. Qed.
 Print Assumptions c10_registry_driver_runs_registry.
 
+(* ---- why registry_generators_classified demands admissible static parameters: with number_of_additive = 0,
+   number_of_xs = 0 or universum_mult = 0 the run fails for every n and every draws *)
+Theorem c10_inadmissible_static_parameters_never_run : forall a b n d,
+  gn_run (FXos 0 a b) n d = None /\ gn_run (FOxs 0 a) n d = None /\ ((1 <= n)%nat -> gn_run (FCoverage 0) n d = None).
+Proof. intros. exact (conj (gn_run_xos0 a b n d) (conj (gn_run_oxs0 a n d) (gn_run_coverage0 n d))). Qed.
+Print Assumptions c10_inadmissible_static_parameters_never_run.
+
 (* ---- the hypotheses are satisfiable by concrete non-trivial instances; the executable checks agree *)
 Example c10_ex_factory_sq :   (* noisy_factory_square, n = 3, owner 1, weights (2.5, *, 4) *)
   gn_run (FFactory VSq true None) 3 (DrFactory 1 [5#2; 7#1; 4#1] []) = Some [0; 0; 0; 25#4; 0; 0; 16#1; 169#4].
